@@ -169,23 +169,44 @@ pub fn outcome_timed<R: Send + 'static>(secs: u64, f: impl FnOnce() -> R + Send 
         TIMED_OUT.fetch_add(1, SeqCst);
         return None;
     }
-    let (tx, rx) = std::sync::mpsc::channel();
-    std::thread::spawn(move || {
+    let (rtx, rrx) = std::sync::mpsc::channel();
+    let job: TimedJob = Box::new(move || {
         let r = match catch(f) {
             Ok(v) => Ok(Outcome::Returned(v)),
             Err(p) if p.in_harness() => Err(format!("harness panic inside outcome_timed(): {} at {}", p.msg, p.at)),
             Err(p) => Ok(Outcome::Panic(format!("{} at {}", p.msg, p.at))),
         };
-        let _ = tx.send(r);
+        let _ = rtx.send(r);
     });
-    match rx.recv_timeout(std::time::Duration::from_secs(secs)) {
+    // one helper thread per calling thread, reused from call to call (spawning a thread per call costs
+    // more than a root); a helper that got stuck is abandoned and replaced
+    TIMED_EXEC.with(|e| {
+        let mut e = e.borrow_mut();
+        if e.is_none() {
+            let (tx, rx) = std::sync::mpsc::channel::<TimedJob>();
+            std::thread::spawn(move || {
+                while let Ok(job) = rx.recv() {
+                    job();
+                }
+            });
+            *e = Some(tx);
+        }
+        let _ = e.as_ref().unwrap().send(job);
+    });
+    match rrx.recv_timeout(std::time::Duration::from_secs(secs)) {
         Ok(Ok(o)) => Some(o),
         Ok(Err(m)) => panic!("{}", m),
         Err(_) => {
+            TIMED_EXEC.with(|e| *e.borrow_mut() = None);
             TIMED_OUT.fetch_add(1, SeqCst);
             None
         }
     }
+}
+
+type TimedJob = Box<dyn FnOnce() + Send>;
+thread_local! {
+    static TIMED_EXEC: RefCell<Option<std::sync::mpsc::Sender<TimedJob>>> = RefCell::new(None);
 }
 
 /// Outcome of an expression that is expected to panic *at the call site inside the harness*
@@ -815,7 +836,7 @@ pub fn main(prop: Property, jobs: Vec<Job>, selftests: &[(&str, fn() -> Result<u
 
     let timed_out = TIMED_OUT.load(std::sync::atomic::Ordering::SeqCst);
     if timed_out > 0 {
-        harness_errors.push(format!("{} call(s) into the code under test did not return within their time box: those cases are undecided (a hang in the code under test, or an overloaded machine)", timed_out));
+        harness_errors.push(format!("{} call(s) into the code under test did not return within their time box (or were skipped after three such time-outs): those cases are undecided (a hang in the code under test, or an overloaded machine)", timed_out));
     }
 
     // vacuity guards (depend only on generators / reference side)
